@@ -33,3 +33,46 @@ Print Assumptions C09_ok_is_adjoint_of_effective_graph.
 Example C09_stale_is_detected :
   snd (run_hist g_init (ex_build ++ [SBackward 1 None; SBackward 2 None])) = [Ok; Ok; Ok; Ok; InvalidBackprop].
 Proof. exact ex_stale_detected. Qed.
+
+From MG Require Import Proofs.StaleP.
+
+(* THE PARTIAL THEOREM: at every state reached along a well-formed history, if no tensor whose creator was
+   cleared and that is still listed in L's graph has been re-used since (no_stale_refill), L.backward() either raises
+   InvalidBackprop or no cleared tensor is involved and the gradients are exactly those of the computation AS
+   RECORDED (g_nodes), for every direction delta. *)
+Theorem C09_partial_raise_or_exact : forall (h1 h2 : list stmt) (t : nat) (seed : option zvec),
+  hist_ok g_init (h1 ++ h2) = true ->
+  let st := fst (run_hist g_init h1) in
+  t < length (g_vals st) -> n_const st t = false -> nth t (g_cleared st) false = false ->
+  no_stale_refill st t ->
+  match do_backward st t seed with
+  | (_, InvalidBackprop) => True
+  | (_, BadStmt) => False
+  | (st', Ok) =>
+      (forall k, In k (order_of st t) -> nth k (g_cleared st) false = false) /\
+      exists G : list zvec,
+        (forall k, In k (order_of st t) -> grad_vec st' k = nth k G []) /\
+        (forall k, ~ In k (order_of st t) -> nth k G [] = []) /\
+        (forall delta : nat -> zvec,
+           leaf_sum Z 0%Z Z.add Z.mul delta 0 (g_nodes st) G
+           = dot Z 0%Z Z.add Z.mul (bw_seed st t seed) (nth t (tangents Z Z.add delta (g_nodes st)) []))
+  end.
+Proof. exact raise_or_exact_reachable. Qed.
+Print Assumptions C09_partial_raise_or_exact.
+
+(* THE FULL STATEMENT IS FALSE of the faithful model (and of the implementation: the witness is replayed on /repo
+   by the check):  x=[3]; a=x*2; L1=a*1; L2=a*a; L1.backward(); b=a*1; L2.backward()  -- no exception, x keeps the
+   gradient [2] of L1 whereas the recorded computation has dL2/dx = [24]. *)
+Theorem C09_refuted :
+  let st := fst (run_hist g_init c09_prefix) in
+  let r := run_hist g_init c09_hist in
+  hist_ok g_init c09_hist = true /\
+  snd r = [Ok; Ok; Ok; Ok; Ok; Ok; Ok] /\
+  g_vals (fst r) = [[3]; [6]; [6]; [36]; [6]]%Z /\
+  order_of st 3 = [3; 1] /\ nth 1 (g_cleared st) false = true /\ nth 1 (g_hasops st) false = true /\
+  ~ no_stale_refill st 3 /\
+  g_grad (fst r) = [Some [2]; Some [12]; Some [1]; Some [1]; None]%Z /\
+  recorded_order st 3 = [3; 1; 0] /\
+  recorded_grads st 3 None = [[24]; [12]; []; [1]; []]%Z.
+Proof. exact StaleP.C09_refuted. Qed.
+Print Assumptions C09_refuted.
